@@ -38,6 +38,7 @@ UF_I2F = z3.Function('uf_i2f', z3.IntSort(), F64)
 UF_FLOORDIV = z3.Function('uf_floordiv', F64, F64, F64)
 UF_MOD = z3.Function('uf_mod', F64, F64, F64)
 
+FORMAT_TOKENS: list = []
 ARITH_MODE = ['uf']  # 'uf' | 'ieee' ; module-level so that proxies need no ctx
 
 
@@ -220,7 +221,10 @@ class SInt:
         return cur().concretize(self.t)
 
     def __format__(self, spec: str) -> str:
-        return f'<SInt {self.t}>'
+        # an opaque token that a harness can map back to the term (used when real code renders
+        # a symbolic integer into generated text)
+        FORMAT_TOKENS.append(self.t)
+        return f'__SINT_{len(FORMAT_TOKENS) - 1}__'
 
     def __str__(self) -> str:
         return f'<SInt {self.t}>'
